@@ -15,6 +15,7 @@ pub mod c16;
 pub mod c17;
 pub mod c18;
 pub mod c19;
+pub mod c20;
 pub mod common;
 pub mod par;
 
@@ -48,6 +49,7 @@ pub fn all() -> Vec<Prop> {
         Prop { id: "C17", level: "exploration", run: c17::run, replay: c17::replay },
         Prop { id: "C18", level: "exploration", run: c18::run, replay: c18::replay },
         Prop { id: "C19", level: "exploration", run: c19::run, replay: c19::replay },
+        Prop { id: "C20", level: "exploration", run: c20::run, replay: c20::replay },
     ]
 }
 
@@ -59,6 +61,16 @@ pub fn find(id: &str) -> Option<Prop> {
 pub fn internal(cmd: &str, _rest: &[String]) -> Option<i32> {
     match cmd {
         "exec-sched" => Some(par::executor_main()),
+        "build-probes" => Some(match c20::build_probes() {
+            Ok(f) => {
+                println!("feature-set probes built: {f:?}");
+                0
+            }
+            Err(e) => {
+                eprintln!("{e}");
+                2
+            }
+        }),
         _ => None,
     }
 }
